@@ -5,6 +5,9 @@ CONFIG = dict(
             # large cases (id-space family around 55 296 .. 67 585 distinct lines, scale family 10^3 .. 10^6 lines; up to
             # megabytes per case): a stream of its own, not shrunk
             dict(harness='c11big', driver='c11'),
+            # several changes per FileDiff.Consume call (2..6 files per commit colliding on the natural cache keys), several calls
+            # on one FileDiff instance; shrunk by dropping changes
+            dict(harness='c11multi', driver='c11', shrink_field='files'),
         ],
         search_scale=0.5,
         rule='pairs of blobs (old, new) run through the real FileDiff.Consume x cleanup on/off x whitespace-ignore on/off x timeout '
@@ -24,7 +27,18 @@ CONFIG = dict(
              '(thorough also 10^6) lines ascending / reversed / random / periodic with periods 2^k and 2^k+-1, 255-257, 1023-1025, '
              '2^15+-1, 2^16+-1 lines, single lines of 2^8+-1, 2^10+-1, 2^12+-1, 2^16+-1 (thorough 2^20+1) bytes, blobs of exactly '
              '2^10+-1, 2^12+-1, 2^16+-1 bytes; all x cleanup x whitespace-ignore x timeout (none, 0, 1, 100, 1000 ms) x final newline. '
-             'Non-trivial = both blobs non-empty and different; distinct = distinct (configuration, old bytes, new bytes).',
+             'Stream c11multi (round 3, several elements per call): ONE FileDiff.Consume call with 2..6 modifications whose blobs carry their '
+             'real git hashes and collide on the natural cache keys - identical new blob reached from different old blobs (different and '
+             'equal line counts), identical old blob to different new blobs, identical pairs with one deviating copy, contents swapped / '
+             'rotated between paths, one copy catching up with another edited in the same commit, every side drawn from a pool of 2-4 '
+             'blobs (incl. unchanged content = mode change), renames with edits (also crossing), insertions / deletions of the same blobs '
+             'in the same commit, shuffled order; exhaustively every commit of two modifications over strings of length <=2 over {a,LF} '
+             '(thorough: of three over length <=1 over {a,LF,space}); and 2-3 such commits on the SAME FileDiff instance (same paths with '
+             'other contents, same pair / reverse pair / same new blob again, one option flipped by re-Configure, Initialize called again). '
+             'Every file of every call is judged by the same oracles as a single pair (script validator, line counts, real burndown '
+             'consumer per file and on the whole commit, line statistics). '
+             'Non-trivial = both blobs non-empty and different (c11multi: a Consume call with at least two such modifications); '
+             'distinct = distinct (configuration, old bytes, new bytes).',
         exhaustive_note='quick: all pairs of strings of length <=3 over {a,b,LF,space} and of length <=4 over {a,LF}, x cleanup x whitespace-ignore; '
                         'thorough: length <=4 over {a,b,LF,space} and length <=3 over {a,LF,space,CR,0xff}',
         assumptions=[
